@@ -43,6 +43,7 @@ type CPPlan struct {
 	Rich        bool     `json:"rich_fs,omitempty"`
 	LeadBlank   int      `json:"lead_blank,omitempty"` // blank / whitespace-only lines before the package clause of every file
 	EOL         int      `json:"eol,omitempty"`   // line endings of the source files: 0 = LF, 1 = CRLF, 2 = CRLF on some lines
+	LibPkg      bool     `json:"lib_pkg,omitempty"` // with Split > 0: the second file is a package of its own (package shape, imported as example.com/geo/shape)
 	Split       int      `json:"split,omitempty"` // functions with index >= Split (when > 0) live in a second file of the package
 }
 
@@ -68,18 +69,36 @@ type cpRendered struct {
 	Names      []string // function display names as goatlang prints them
 }
 
-func cpFuncName(i int, f *CPFunc) string {
-	if f.Method {
-		return fmt.Sprintf("main.T.m%d", i)
+const cpLibPath, cpLibName = "example.com/geo/shape", "shape"
+
+// inLib: function i lives in the library package.
+func (p *CPPlan) inLib(i int) bool { return p.LibPkg && p.Split > 0 && i >= p.Split }
+
+func (p *CPPlan) pkgOf(i int) string {
+	if p.inLib(i) {
+		return cpLibName
 	}
-	return fmt.Sprintf("main.f%d", i)
+	return "main"
 }
 
-func cpCallExpr(i int, f *CPFunc, arg string) string {
+func cpFuncName(p *CPPlan, i int, f *CPFunc) string {
 	if f.Method {
-		return fmt.Sprintf("obj.m%d(%s)", i, arg)
+		return fmt.Sprintf("%s.T.m%d", p.pkgOf(i), i)
 	}
-	return fmt.Sprintf("f%d(%s)", i, arg)
+	return fmt.Sprintf("%s.f%d", p.pkgOf(i), i)
+}
+
+// cpCallExpr renders a call of function i from function `from` (cross-package calls go through
+// the import's name).
+func cpCallExpr(p *CPPlan, from, i int, f *CPFunc, arg string) string {
+	q := ""
+	if p.inLib(i) && !p.inLib(from) {
+		q = cpLibName + "."
+	}
+	if f.Method {
+		return fmt.Sprintf("%sobj.m%d(%s)", q, i, arg)
+	}
+	return fmt.Sprintf("%sf%d(%s)", q, i, arg)
 }
 
 const cpPrelude = `package main
@@ -144,11 +163,15 @@ func cpRender(p *CPPlan) *cpRendered {
 	if p.Seed%2 == 0 {
 		lead = strings.Repeat(" \t\n", p.LeadBlank)
 	}
-	b.WriteString(lead + cpPrelude)
-	line := p.LeadBlank + strings.Count(cpPrelude, "\n")
+	preA := cpPrelude
+	if p.LibPkg && p.Split > 0 {
+		preA = strings.Replace(preA, "import \"host\"\n", "import \"host\"\nimport \""+cpLibPath+"\"\n", 1)
+	}
+	b.WriteString(lead + preA)
+	line := p.LeadBlank + strings.Count(preA, "\n")
 	lineA := 0
 	curFile := "main/a.go"
-	for i, l := range strings.Split(cpPrelude, "\n") {
+	for i, l := range strings.Split(preA, "\n") {
 		switch strings.TrimSpace(l) {
 		case "return a / b":
 			r.HelperLine["main.hdiv"] = i + 1 + p.LeadBlank
@@ -162,7 +185,7 @@ func cpRender(p *CPPlan) *cpRendered {
 		return line
 	}
 	for i := range p.Funcs {
-		r.Names = append(r.Names, cpFuncName(i, &p.Funcs[i]))
+		r.Names = append(r.Names, cpFuncName(p, i, &p.Funcs[i]))
 	}
 	var stmts func(fi int, ss []CPStmt, ind string)
 	ctxOf := func(ind string) string { return strings.ReplaceAll(ind, "\t", "") }
@@ -245,12 +268,12 @@ func cpRender(p *CPPlan) *cpRendered {
 				emit(ind + fmt.Sprintf("r = r + sq%d[0] - 1", s.N))
 			case "call", "mcall":
 				if s.Target > fi && s.Target < len(p.Funcs) {
-					emit(ind + fmt.Sprintf("host.At(%d); r = r + %s", line+1, cpCallExpr(s.Target, &p.Funcs[s.Target], "d")))
+					emit(ind + fmt.Sprintf("host.At(%d); r = r + %s", line+1, cpCallExpr(p, fi, s.Target, &p.Funcs[s.Target], "d")))
 				}
 			case "mlcall":
 				// a gofmt-style multi-line call: the call's line is the line of "name("
 				if s.Target > fi && s.Target < len(p.Funcs) {
-					open := cpCallExpr(s.Target, &p.Funcs[s.Target], "")
+					open := cpCallExpr(p, fi, s.Target, &p.Funcs[s.Target], "")
 					open = open[:len(open)-1] // drop ")"
 					r.ML[emit(ind+fmt.Sprintf("host.At(%d); r = r + %s", line+1, open))] = true
 					if s.Site != 0 {
@@ -267,23 +290,31 @@ func cpRender(p *CPPlan) *cpRendered {
 					// not share the spread call's line
 					emit(ind + fmt.Sprintf("dd%d := []int{d}", line+1))
 					emit(ind + fmt.Sprintf("host.At(%d)", line+2))
-					emit(ind + fmt.Sprintf("r = r + %s", cpCallExpr(s.Target, &p.Funcs[s.Target], fmt.Sprintf("dd%d...", line-1))))
+					emit(ind + fmt.Sprintf("r = r + %s", cpCallExpr(p, fi, s.Target, &p.Funcs[s.Target], fmt.Sprintf("dd%d...", line-1))))
 				}
 			case "dotcall":
 				// a method call split after the dot: the call's line is the line of "m("
 				if s.Target > fi && s.Target < len(p.Funcs) && p.Funcs[s.Target].Method {
-					emit(ind + "o := obj")
+					if p.inLib(s.Target) && !p.inLib(fi) {
+						emit(ind + "o := " + cpLibName + ".obj")
+					} else {
+						emit(ind + "o := obj")
+					}
 					emit(ind + fmt.Sprintf("host.At(%d); r = r + o.", line+2))
 					r.ML[emit(ind+fmt.Sprintf("\tm%d(d)", s.Target))] = true
 				}
 			case "fcall":
 				if s.Target > fi && s.Target < len(p.Funcs) && !p.Funcs[s.Target].Method {
-					emit(ind + fmt.Sprintf("fn := f%d", s.Target))
+					q := ""
+					if p.inLib(s.Target) && !p.inLib(fi) {
+						q = cpLibName + "."
+					}
+					emit(ind + fmt.Sprintf("fn := %sf%d", q, s.Target))
 					emit(ind + fmt.Sprintf("host.At(%d); r = r + fn(d)", line+1))
 				}
 			case "rec":
 				emit(ind + "if d > 0 {")
-				emit(ind + fmt.Sprintf("\thost.At(%d); r = r + %s", line+1, cpCallExpr(fi, &p.Funcs[fi], "d - 1")))
+				emit(ind + fmt.Sprintf("\thost.At(%d); r = r + %s", line+1, cpCallExpr(p, fi, fi, &p.Funcs[fi], "d - 1")))
 				emit(ind + "}")
 			case "for":
 				emit(ind + fmt.Sprintf("for i := 0; i < %d; i++ {", s.N))
@@ -328,9 +359,26 @@ func cpRender(p *CPPlan) *cpRendered {
 			// the rest of the package lives in a second file with its own line numbers
 			lineA = line
 			b = &bB
-			b.WriteString(lead + "package main\nimport \"host\"\nimport \"golang.org/x/exp/slices\"\n")
-			line = 3 + p.LeadBlank
-			curFile = "main/b.go"
+			if p.LibPkg {
+				// a package of its own, with its own copy of the prelude's types, variables and helpers
+				body := strings.SplitN(cpPrelude, "\n", 4)[3]
+				head := "package " + cpLibName + "\nimport \"host\"\nimport \"golang.org/x/exp/slices\"\n"
+				b.WriteString(lead + head + body)
+				for i, l := range strings.Split(head+body, "\n") {
+					switch strings.TrimSpace(l) {
+					case "return a / b":
+						r.HelperLine[cpLibName+".hdiv"] = i + 1 + p.LeadBlank
+					case "return p.A":
+						r.HelperLine[cpLibName+".hattr"] = i + 1 + p.LeadBlank
+					}
+				}
+				line = p.LeadBlank + strings.Count(head+body, "\n")
+				curFile = cpLibPath + "/b.go"
+			} else {
+				b.WriteString(lead + "package main\nimport \"host\"\nimport \"golang.org/x/exp/slices\"\n")
+				line = 3 + p.LeadBlank
+				curFile = "main/b.go"
+			}
 		}
 		r.FuncFile = append(r.FuncFile, curFile)
 		params := "d int"
@@ -477,6 +525,7 @@ func (e crashpoint) genPlan(r *core.PRNG) *CPPlan {
 	if r.Chance(1, 5) {
 		p.LeadBlank = 1 + r.Intn(4)
 	}
+	p.LibPkg = p.Split > 0 && r.Chance(1, 2)
 	for i := 0; i < g.nf; i++ {
 		f := CPFunc{Method: i > 0 && r.Chance(1, 3), Variadic: i > 0 && r.Chance(1, 4)}
 		n := 1 + r.Intn(4)
@@ -589,7 +638,11 @@ func (crashpoint) Execute(plan any, keep bool) *core.Result {
 	}
 	files := []core.DiskFile{{Path: "main/a.go", Data: eol(rd.Text)}}
 	if rd.TextB != "" {
-		files = append(files, core.DiskFile{Path: "main/b.go", Data: eol(rd.TextB)})
+		pathB := "main/b.go"
+		if p.LibPkg {
+			pathB = cpLibPath + "/b.go"
+		}
+		files = append(files, core.DiskFile{Path: pathB, Data: eol(rd.TextB)})
 	}
 	if p.EOL != 0 {
 		res.Counters.Inc("crlf_source")
@@ -695,8 +748,13 @@ func (crashpoint) Execute(plan any, keep bool) *core.Result {
 	// expected chain from the shadow stack
 	var want []cpLoc
 	top := run.snap[len(run.snap)-1]
-	if helper := map[string]string{"helper-div": "main.hdiv", "helper-attr": "main.hattr"}[site.Kind]; helper != "" {
-		want = append(want, cpLoc{Func: helper, File: "main/a.go", Line: rd.HelperLine[helper]})
+	if helper := map[string]string{"helper-div": "hdiv", "helper-attr": "hattr"}[site.Kind]; helper != "" {
+		helper = p.pkgOf(site.Func) + "." + helper
+		hfile := "main/a.go"
+		if p.inLib(site.Func) {
+			hfile = cpLibPath + "/b.go"
+		}
+		want = append(want, cpLoc{Func: helper, File: hfile, Line: rd.HelperLine[helper]})
 	}
 	want = append(want, cpLoc{Func: rd.Names[top.fn], File: site.File, Line: site.Line})
 	for i := len(run.snap) - 1; i >= 1; i-- {
@@ -869,6 +927,9 @@ func (crashpoint) Shrink(plan any) []func() any {
 	}
 	if p.LeadBlank != 0 {
 		mod(func(q *CPPlan) { q.LeadBlank = 0 })
+	}
+	if p.LibPkg {
+		mod(func(q *CPPlan) { q.LibPkg = false })
 	}
 	if p.Rich {
 		mod(func(q *CPPlan) { q.Rich = false })
